@@ -161,16 +161,6 @@ def _q(f, *a, **k):
         return f(*a, **k)
 
 
-def lemma(ctx, name, cond, **kw):
-    """an obligation whose formula is returned for later `using=` clauses; NOT added to the path
-    assumptions (a lemma that is false for the code under verification must fail as an obligation)"""
-    if ctx.mode == "conc":
-        return ctx.ensure(name, cond)
-    f = symrun.fbool(cond)
-    ctx.ensure(name, f, **kw)
-    return f
-
-
 def arr(ctx, xs):
     return np.array(list(xs), dtype=object if ctx.mode == "sym" else float)
 
